@@ -81,7 +81,8 @@ Definition c14_chg (P : params) (a z : Qc) : Qc :=
   (a_max P - a) * z * a_rate P
   + (if Qceqb z 0 then (a_base P - a) * a_rate P else 0).
 
-Lemma c14_overprod1_eq P a z : overprod1 P a z = qmax 1 (a + c14_chg P a z).
+Lemma c14_overprod1_eq P a z :
+  overprod1 P a z = qmin (a_max P) (qmax 1 (a + c14_chg P a z)).
 Proof. reflexivity. Qed.
 
 Lemma c14_chg_zero P a : c14_chg P a 0 = (a_base P - a) * a_rate P.
@@ -94,11 +95,11 @@ Proof.
   intro Hz. unfold c14_chg. destruct (Qceqb_spec z 0) as [E|_]; [contradiction|ring].
 Qed.
 
-(* the change never exceeds (a_max - a) * rate, and keeps a below a_max *)
+(* when the rate is at most 1 the change keeps a below a_max (the cap is idle) *)
 Lemma c14_chg_le_max P a z :
-  alpha_cfg P -> a <= a_max P -> z <= 1 -> a + c14_chg P a z <= a_max P.
+  alpha_cfg P -> a_rate P <= 1 -> a <= a_max P -> z <= 1 -> a + c14_chg P a z <= a_max P.
 Proof.
-  intros (Hb1 & Hb2 & Hr0 & Hr1) HaM Hz.
+  intros (Hb1 & Hb2 & Hr0) Hr1 HaM Hz.
   destruct (Qceqb_spec z 0) as [E|Hn].
   - subst z. rewrite c14_chg_zero. apply c14_relax_le_max; assumption.
   - rewrite c14_chg_nonzero by exact Hn. apply c14_step_le_max; assumption.
@@ -107,7 +108,7 @@ Qed.
 Lemma c14_chg_nonpos P a z :
   alpha_cfg P -> a_base P = 1 -> 1 <= a -> a <= a_max P -> z <= 0 -> c14_chg P a z <= 0.
 Proof.
-  intros (Hb1 & Hb2 & Hr0 & Hr1) HB Ha1 HaM Hz.
+  intros (Hb1 & Hb2 & Hr0) HB Ha1 HaM Hz.
   destruct (Qceqb_spec z 0) as [E|Hn].
   - subst z. rewrite c14_chg_zero, HB. apply c14_relax_nonpos; assumption.
   - rewrite c14_chg_nonzero by exact Hn. apply c14_step_nonpos; assumption.
@@ -118,10 +119,9 @@ Lemma c14_bounds : C14_bounds.
 Proof.
   intros P a z Hcfg Ha1 HaM Hz.
   rewrite c14_overprod1_eq. split.
-  - apply qmax_l.
-  - apply qmax_lub.
-    + destruct Hcfg as (Hb1 & Hb2 & _). qc2q. lra.
-    + apply c14_chg_le_max; assumption.
+  - apply qmin_glb; [|apply qmax_l].
+    destruct Hcfg as (Hb1 & Hb2 & _). qc2q. lra.
+  - apply qmin_l.
 Qed.
 Print Assumptions c14_bounds.
 
@@ -131,7 +131,9 @@ Lemma c14_le_when_nonpos P a z :
   overprod1 P a z <= a.
 Proof.
   intros Hcfg HB Ha1 HaM Hz.
-  rewrite c14_overprod1_eq. apply qmax_lub; [exact Ha1|].
+  rewrite c14_overprod1_eq.
+  apply Qcle_trans with (qmax 1 (a + c14_chg P a z)); [apply qmin_r|].
+  apply qmax_lub; [exact Ha1|].
   assert (Hc : c14_chg P a z <= 0) by (apply c14_chg_nonpos; assumption).
   set (c := c14_chg P a z) in *. clearbody c. qc2q. lra.
 Qed.
@@ -149,14 +151,19 @@ Proof.
     split; [exact Hzpos|].
     assert (Hn : z <> 0) by (apply Qc_pos_neq0; exact Hzpos).
     rewrite c14_overprod1_eq, c14_chg_nonzero by exact Hn.
-    destruct Hcfg as (Hb1 & Hb2 & Hr0 & Hr1).
+    destruct Hcfg as (Hb1 & Hb2 & Hr0).
     assert (Hs : 0 <= (a_max P - a) * z * a_rate P).
     { apply c14_step_nonneg; [exact HaM| |exact Hr0]. apply Qclt_le_weak. exact Hzpos. }
+    assert (Hle : a_rate P <= 1 -> a + (a_max P - a) * z * a_rate P <= a_max P).
+    { intro Hr1. apply c14_step_le_max; assumption. }
     set (s := (a_max P - a) * z * a_rate P) in *. clearbody s.
-    unfold qmax. destruct (Qcleb_spec 1 (a + s)) as [H1|H1]; [reflexivity|].
-    exfalso. apply H1. qc2q. lra.
+    assert (Em : qmax 1 (a + s) = a + s).
+    { unfold qmax. destruct (Qcleb_spec 1 (a + s)) as [H1|H1]; [reflexivity|].
+      exfalso. apply H1. qc2q. lra. }
+    rewrite Em. split; [reflexivity|].
+    intro Hr1. apply qmin_le_r. apply Hle. exact Hr1.
   - intro Hz0. apply c14_le_when_nonpos; assumption.
-  - destruct Hcfg as (Hb1 & Hb2 & Hr0 & Hr1).
+  - destruct Hcfg as (Hb1 & Hb2 & Hr0).
     assert (Hu : 0 <= (a_max P - a) * a_rate P) by (apply Qc_mul_nonneg; qc2q; lra).
     assert (Hc : c14_chg P a z <= (a_max P - a) * a_rate P).
     { destruct (Qceqb_spec z 0) as [E|Hn].
@@ -166,9 +173,12 @@ Proof.
         clearbody u v. qc2q. lra.
       - rewrite c14_chg_nonzero by exact Hn. apply c14_step_le_rate; assumption. }
     rewrite c14_overprod1_eq.
+    assert (Hm : qmin (a_max P) (qmax 1 (a + c14_chg P a z)) <= qmax 1 (a + c14_chg P a z))
+      by apply qmin_r.
     set (c := c14_chg P a z) in *. set (u := (a_max P - a) * a_rate P) in *.
-    clearbody c u.
-    destruct (qmax_cases 1 (a + c)) as [E|E]; rewrite E; qc2q; lra.
+    set (m := qmin (a_max P) (qmax 1 (a + c))) in *.
+    clearbody c u m.
+    destruct (qmax_cases 1 (a + c)) as [E|E]; rewrite E in Hm; qc2q; lra.
 Qed.
 Print Assumptions c14_rise.
 
